@@ -4,6 +4,8 @@ pub mod common;
 pub mod p_hist;
 pub mod p_meta;
 pub mod p_model;
+pub mod p_res;
+pub mod p_scan;
 pub mod p_total;
 
 use crate::engine::{CaseRec, Local, Runner, Violation};
@@ -59,6 +61,11 @@ pub fn all() -> Vec<PropDef> {
         meta_prop!("C04", p_meta::run_c04, p_meta::check_c04, "part (a): G1 messages under every usable runtime backend (hook H2), lenient-weighted messages, bounded-exhaustive header strings; all outcomes. Oracle: pointer arithmetic — every non-empty returned slice lies in [buf,buf+len), on Complete(n) inside buf[..n] and in strictly increasing non-overlapping order method<path|reason<name0<value0<.... Non-trivial = >=1 header with non-empty value, or Partial/Err with a start-line field set; distinct by hash of (entry,cfg,cap,backend,buffer). part (b) (compile-time corpus) is reported in coverage.compile_corpus", META_ASSUME),
         meta_prop!("C05", p_meta::run_c05, p_meta::check_c05, "256 byte values x every position of 12 bases (each header option exercised) x 4 configs, lane phases 0..=70/140 x 256 values x 6 elements (target, reason, name, value, folded value, ignored-line tail), bounded-exhaustive header strings x option combinations, G1 default- and lenient-weighted messages. Oracle: predicates transcribed from the statement on every Complete (tchar method/names, target class + UTF-8, version, code re-read from the buffer, reason/value classes, trimming, fold rules, no NUL / bare CR in buf[..n]) and UTF-8 validity of every &str on every outcome. Non-trivial = Complete with the swept byte inside buf[..n], or a field containing obs-text / HTAB / a fold; distinct by hash of (entry,cfg,cap,buffer)", META_ASSUME),
         PropDef { id: "C18", run: p_hist::run, check: p_hist::check, max_buf: 80_000, assumptions: META_ASSUME, rule: "stateful: a history = 1..4 earlier calls (entry point among the kind's four, any config, buffer = fresh G1 message / prefix of the probe / the probe itself / a fixed 3-header message; or the README loop: growing prefixes of the probe with the probe's entry and config) on one Request/Response and one header array (uninit variants get their own arrays), then a probe call; plus every ordered pair of 8 fixed messages x 4x4 entry points x 3 capacities. Histories are generated as choice bytes (vec(op) + interpreter) and shrink as one value. Oracle: probe on the reused value vs probe on a fresh value whose array length equals the reused value's headers.len() before the probe: identical status; on Complete identical fields and headers. Non-trivial = the history contains a Complete or Partial call and the probe gets past its first start-line field; distinct by hash of (probe entry,cfg,cap,probe buffer,ops,history buffers)" },
+        PropDef { id: "C12", run: p_scan::run, check: p_scan::check, max_buf: 4096, assumptions: &[
+            "NEON is checked through a source transformation of the current neon.rs compiled against a scalar emulation of the aarch64 intrinsics (vlib/src/neon_emu.rs, transcribed from the Arm reference), not on hardware",
+            "word size 8 (x86-64) only for the SWAR backend",
+            "SSE4.2 / AVX2 backends are run only if the host CPU has them (it does: see notes)",
+        ], rule: "for each backend x class (SWAR x3, SSE4.2 x2, AVX2 x2, emulated NEON x3, dispatching entry x3 under each forced cell value): every length 0..=100 x every position x all 256 byte values (other bytes in class, 2-3 fillers) with the buffer ending at a guard page; all-in-class buffers of every length 0..=200 at 66 placements; one offending byte x 32 interior alignments; every pair of offending positions with 3 start cursors; SWAR block functions over a boundary alphabet^8 (must never step over an out-of-class byte); the class predicates on all 256 bytes. Oracle: cursor after the call == start + position of the first byte outside the class as written in the statement. Non-trivial = an offending byte at p>=1 or length >= 8; distinct by hash of (backend,class,cell,start,placement,bytes). exhaustive over the stated grid" },
         meta_prop!("C15", p_meta::run_c15, p_meta::check_c15, "part 1: mostly-valid G1 messages and bounded-exhaustive header strings; each default-Complete buffer is re-parsed under all 127 other configs and must give the identical normalised result (sole exception: reason with leading SP stripped under allow_multiple_spaces_in_response_status_delimiters). part 2: any buffer x config pairs differing only in other-kind options (random pairs on G1, all pairs on header strings) must agree on status, fields and headers. Non-trivial = default-Complete with >=1 header (part 1) / result past the first start-line field (part 2); distinct by hash of (entry,cfg,cfg2,cap,buffer)", META_ASSUME),
         meta_prop!("C16", p_meta::run_c16, p_meta::check_c16, "G1 messages x configs x capacities around k: Request::parse / ParserConfig::parse_request / the two uninit variants (and the response entry points; non-default configs compare the two config-taking ones) must agree on status, fields, headers and written array slots; parse_headers(h) vs 6 request/response start lines + h under the default config and equal capacity (offset shifted by the start-line length), on G1 header blocks and bounded-exhaustive header strings x capacities {0,1,2,8}. Non-trivial = buffer has a colon and the parse got past the start line; distinct by hash of (entry,cfg,cap,buffer)", META_ASSUME),
         meta_prop!("C17", p_meta::run_c17, p_meta::check_c17, "G1 blocks with k=0..12 lines x capacity around k x 9 entry points x configs, and k=0..6 structured lines x every capacity 0..=8 x 128 configs x 9 entry points x 3 tails; arrays pre-filled with sentinel headers (initialised entries) or 0xA5 poison (uninit entries), abutting a guard page, canary on the other side. Oracle: with m = slots written under capacity max(64,lines+8): m<=N => identical outcome, m>N => Err(TooManyHeaders); on Complete headers.len() = slots written = prefix 0..len, other slots bit-identical, exposed elements inside the buffer; after Partial/Err `headers` is (ptr,len)-identical to before the call and every changed slot holds a header from this buffer. Non-trivial = >=1 header line stored and capacity <= m+1; distinct by hash of (entry,cfg,cap,buffer)", META_ASSUME),
@@ -68,6 +75,14 @@ pub fn all() -> Vec<PropDef> {
         model_prop!("C09", p_model::Which::C09, "chunk-size lines: bounded-exhaustive strings over a 14-symbol alphabet, digit counts 0..=20 x 8 boundary patterns x 9 tails and all their prefixes, G1 random with long extensions; run in the release and the debug-assertion profile; oracle = model_chunk (exact status, offset, u128-computed size). Non-trivial = at least one digit and >= 3 bytes, or >= 15 digits; distinct by hash of the buffer"),
         model_prop!("C10", p_model::Which::C10, "rejected buffers from the C06/C07/C08/C14 domains plus a TooManyHeaders-precedence family (k lines x capacity 0..=k+1 x tails x fold x kind x every cut); oracle = model M's acceptable error-kind set for the first offending byte, and TooManyHeaders iff the model says the surplus header line completed first. Non-trivial = rejected after the first byte; distinct by hash of (entry,cfg,cap,buffer)"),
         model_prop!("C14", p_model::Which::C14, "header blocks x 16 header-option combinations x {request,response} (response-only options crossed into requests, where they must be inert): bounded-exhaustive strings over the 11-symbol alphabet after 8 contexts, sweeps over 16 bases written to exercise each option and pair, lane phases, G1 random with fold/whitespace/invalid-line weights raised; oracle = model M with the same options, plus the metamorphic check that strict-valid blocks are reported identically under every option set. Non-trivial = the model took a lenient branch and at least one header or dropped line resulted; distinct by hash of (entry,cfg,cap,buffer)"),
+        PropDef { id: "C19", run: p_res::run_c19, check: p_res::check_c19, max_buf: 80_000, assumptions: &[
+            "allocation is observed through a counting #[global_allocator] installed in vcheck, armed by a thread-local flag around exactly the parser call (self-tested at start)",
+            "the no_std build uses cargo +nightly -Zbuild-std=core for x86_64-unknown-none: the sysroot then contains core only, so any use of std or alloc fails to resolve",
+        ], rule: "all 10 entry points x G1 default- and lenient-weighted messages, bounded-exhaustive header strings x 9 entry points, invalid-UTF-8 targets at every position; the histogram shows every outcome class (Complete, Partial, each Err kind, InvalidChunkSize) populated. Oracle: allocator calls on the calling thread while armed == 0; the two builds (core-only no_std for x86_64-unknown-none, stable --no-default-features) succeed. Non-trivial = any case other than Partial on the empty buffer; distinct by hash of (entry,cfg,cap,buffer)" },
+        PropDef { id: "C20", run: p_res::run_c20, check: p_res::check_c20, max_buf: (1 << 20) + 8192, assumptions: &[
+            "work is observed through hook H3 (per-thread counters in src/iter.rs); re-scans that bypass the cursor abstraction are only seen by the thorough tier's cachegrind instruction-count scaling",
+            "the bounds are constants derived from the statement (travel <= len, block peeks <= len + 16, other primitives <= 8*len + 64); measured maxima on this tree are in coverage.runs[].maxima",
+        ], rule: "30 adversarial parametric families (folded lines, ignored lines, whitespace runs, near-miss SIMD blocks, many minimal headers, long fields, late errors, ...) at sizes 1 KiB..1 MiB x {whole, truncated at a random point, late error, size jitter} under each runtime backend; 8 KiB values with HTAB/SP/obs-text at every period 1..=40; G1 lenient-weighted messages. Oracle (hook H3 counters per call): exactly one cursor created, no backward cursor move, cursor travel <= len and == n on Complete(n), block peeks <= len + 16 (covering <= 8*(len+16)+64 bytes), every other primitive <= 8*len + 64. Non-trivial = len >= 4 KiB and >= 90% of the buffer consumed; distinct by hash of (entry,cfg,backend,buffer)" },
     ]
 }
 
